@@ -132,6 +132,14 @@ class EnumProperty(PropertyProtocol):
                     ),
                     schemas,
                 )
+        if schemas.module_name_taken(class_info):
+            return (
+                PropertyError(
+                    detail=f'Enum "{class_info.name}" would be written to the module "{class_info.module_name}" of another class',
+                    data=data,
+                ),
+                schemas,
+            )
 
         prop = EnumProperty(
             name=name,
